@@ -46,6 +46,7 @@ def digest(record, phase_index=-1):
     d.events = [e for e in record["events"] if e["ph"] == ph]
     d.all_events = record["events"]
     d.params = phase.get("params", {})
+    d.main_restrictions = record.get("main_restrictions", [])
     d.outcome = phase["outcome"]
     starts = {e["id"]: e for e in d.events if e["k"] == "exec_start"}
     ends = {e["id"]: e for e in d.events if e["k"] == "exec_end"}
@@ -149,7 +150,7 @@ def oracle_c01(d):
             removed_again = [e for e in d.events if e["k"] == "store" and e["op"] == "remove" and (e["obj"], e["state"]) == key
                              and e["seq"] < entry["s0"] and any(u["s1"] is not None and u["s1"] < e["seq"] for u in attempts if u["status"] in OK)]
             if removed_again and not holders:
-                parsing = "up-front parsing" if d.eager else "lazy parsing"
+                parsing = "up-front parsing" if d.eager else f"lazy parsing, {expansion_note(d, entry['cls'], min(e['seq'] for e in removed_again))}"
                 same = "the same worker's" if all(e["loc"].startswith(entry["w"] + ":") for e in removed_again) else "another worker's"
                 mechanism = f"state produced in this run was removed from {same} pool by a cleanup before a pending dependant started ({parsing})"
             elif listed_but_not_permitted:
@@ -395,6 +396,24 @@ def oracle_c04(d, case):
 IDLE_BOUNCE_BOUND = 10
 
 
+def expansion_note(d, cls, seq):
+    """Under lazy parsing: had any worker expanded the selected test of this class before event number seq?"""
+    from vlib.travsim import class_key
+    base, _, objects = cls.partition(".vms.")
+    for event in d.events:
+        if event["seq"] >= seq:
+            break
+        if event["k"] != "expand":
+            continue
+        for child in event["children"]:
+            child_cls = class_key(child, d.main_restrictions)
+            child_base, _, child_objects = child_cls.partition(".vms.")
+            # clones carry the producing variant after the name of the test they were cloned from
+            if child_objects == objects and (base == child_base or base.startswith(child_base + ".")):
+                return "dependant already expanded by some worker"
+    return "dependant not yet expanded by any worker"
+
+
 def other_work_windows(d):
     """(consecutive bounces, description) of back-off windows of a worker that lie entirely within a period in which a test
     the worker is compatible with was ready (its producers had finished) and not yet started by anybody."""
@@ -479,7 +498,8 @@ def oracle_c05(d, case):
                 same_worker = e["w"] == owner
                 same_swarm = d.workers[e["w"]]["swarm"] == d.workers.get(owner, {}).get("swarm")
                 relation = "on the same worker" if same_worker else ("of the same swarm" if same_swarm else "of another swarm")
-                parsing = "up-front parsing" if case.get("eager") else "lazy parsing"
+                parsing = "up-front parsing" if case.get("eager") else \
+                    ("lazy parsing" if when == "running" else f"lazy parsing, {expansion_note(d, e['cls'], event['seq'])}")
                 mechanism = f"state removed while a dependant {relation} was {when} ({parsing})"
                 findings.append((mechanism, f"{key} removed at {event['loc']} t={event['t']} by {event.get('w')}; dependants "
                                  f"{[(x['w'], x['cls'], x['t0'], x['t1'], w) for x, w in relevant]}"))
